@@ -38,12 +38,18 @@ RECURSIVE CurSid(_, _)
 CurSid(ctl, i) == IF i = 0 THEN 0
                   ELSE IF ctl[i].f = "seq" /\ ctl[i].i <= Len(ctl[i].ss) THEN ctl[i].ss[ctl[i].i].sid
                   ELSE CurSid(ctl, i - 1)
+RECURSIVE CurWrap(_, _)
+CurWrap(ctl, i) == IF i = 0 THEN 0
+                   ELSE IF ctl[i].f = "seq" /\ ctl[i].i <= Len(ctl[i].ss)
+                          THEN (IF ctl[i].ph = "lead" THEN LeadUse(ctl[i].ss[ctl[i].i]).wrap ELSE 0)
+                   ELSE CurWrap(ctl, i - 1)
 RECURSIVE Repeat(_, _)
 Repeat(x, n) == IF n = 0 THEN <<>> ELSE <<x>> \o Repeat(x, n - 1)
-\* error chain: failing position first, then every use() call site outward
+\* error chain: failing position first, then every use() call site outward (and the site of a call the use() was an argument of)
 RECURSIVE Callers(_, _)
 Callers(tasks, i) == IF i = 0 THEN <<>>
-                     ELSE <<<<tasks[i].name, CurSid(tasks[i].ctl, Len(tasks[i].ctl))>>>> \o Callers(tasks, i - 1)
+                     ELSE Repeat(<<tasks[i].name, CurSid(tasks[i].ctl, Len(tasks[i].ctl))>>, 1 + CurWrap(tasks[i].ctl, Len(tasks[i].ctl)))
+                          \o Callers(tasks, i - 1)
 Fail(x, cls, sid, wrap) ==
   LET t == TopT(x) IN
   [x EXCEPT !.status = "error",
@@ -119,6 +125,11 @@ StepSeqRun(x, t, fr) ==
                          IN SetTop(y, [PushSc(SetPh(TopT(y), "poll")) EXCEPT
                                          !.ctl = Append(@, [f |-> "forin", node |-> s, items |-> items, i |-> 1,
                                                             ph |-> "next", strmode |-> kd = "str"])])
+    [] LeadUse(s).is /\ ~x.v2 /\ LeadUse(s).name \in DOMAIN x.prog ->
+         \* a use call the statement evaluates first: the callee's task is pushed before the statement itself is evaluated
+         [SetTop(x, SetPh(t, "lead")) EXCEPT !.tasks = Append(@, [name |-> LeadUse(s).name, ctl |-> <<SeqF(x.prog[LeadUse(s).name])>>,
+                                                                  sc |-> <<EmptyScope>>, brk |-> FALSE, cont |-> FALSE,
+                                                                  exit |-> FALSE])]
     [] OTHER ->      \* expression / assignment / call statement
          LET r == IF DirectUse(s) THEN Eval(s, StOf(x, t)) ELSE NoPend(Eval(s, StOf(x, t))) IN
          IF ~r.ok THEN Fail(Back(x, t, r.st), r.cls, s.sid, r.st.wrap)
@@ -129,6 +140,13 @@ StepSeqRun(x, t, fr) ==
                                                                     sc |-> <<EmptyScope>>, brk |-> FALSE, cont |-> FALSE,
                                                                     exit |-> FALSE])]
                    ELSE SetTop(y, t2)
+
+\* the callee of a leading use() has returned: now the statement itself, the call yielding "no value"
+StepSeqLead(x, t, fr) ==
+  LET s == fr.ss[fr.i]
+      r == Eval(s, StOf(x, t))
+  IN IF ~r.ok THEN Fail(Back(x, t, r.st), r.cls, s.sid, r.st.wrap)
+     ELSE LET y == Back(x, t, r.st) IN SetTop(y, SetPh(TopT(y), "poll"))
 
 StepSeqPoll(x, t, fr) ==
   LET y == Polled(x)
@@ -181,7 +199,8 @@ Step(x) ==
     THEN (IF Len(x.tasks) = 1 THEN [x EXCEPT !.status = "done"]
           ELSE [x EXCEPT !.tasks = PopN(@, 1)])              \* use() returns: the caller resumes
   ELSE LET fr == TopF(t) IN
-       CASE fr.f = "seq" -> (IF fr.ph = "run" THEN StepSeqRun(x, t, fr) ELSE StepSeqPoll(x, t, fr))
+       CASE fr.f = "seq" -> (IF fr.ph = "run" THEN StepSeqRun(x, t, fr) ELSE IF fr.ph = "lead" THEN StepSeqLead(x, t, fr)
+                             ELSE StepSeqPoll(x, t, fr))
          [] fr.f = "pops" -> SetTop(x, [t EXCEPT !.ctl = PopN(@, 1), !.sc = PopN(@, fr.n)])
          [] fr.f = "for" -> StepFor(x, t, fr)
          [] fr.f = "forin" -> StepForIn(x, t, fr)
